@@ -285,6 +285,13 @@ impl From<cli::Opt> for Config {
             &line_fill_method,
             side_by_side_data,
         );
+        // The width the side-by-side panels are derived from (see `SideBySideData::new_sbs`):
+        // the input must not be truncated to less than what the wrapped lines of *these*
+        // panels can show, whatever the width of the terminal is.
+        let side_by_side_width = match opt.computed.decorations_width {
+            cli::Width::Fixed(width) => width,
+            cli::Width::Variable => opt.computed.available_terminal_width,
+        };
 
         let navigate_regex = if (opt.navigate || opt.show_themes)
             && (opt.navigate_regex.is_none() || opt.navigate_regex == Some("".to_string()))
@@ -430,10 +437,7 @@ impl From<cli::Opt> for Config {
             max_line_distance: opt.max_line_distance,
             max_line_distance_for_naively_paired_lines,
             max_line_length: if opt.side_by_side {
-                wrap_config.config_max_line_length(
-                    opt.max_line_length,
-                    opt.computed.available_terminal_width,
-                )
+                wrap_config.config_max_line_length(opt.max_line_length, side_by_side_width)
             } else {
                 opt.max_line_length
             },
